@@ -297,7 +297,13 @@ impl World {
 		self.ops[op].answered_before_poison = !self.poisoned;
 		self.answered_single.push((op, id));
 		// (with unknown members also: blanks around the text)
-		let text = if self.extra_members { format!("\r\n {} \n", body) } else { body.to_string() };
+		// (now and then a long run of blanks comes first: JSON text may begin with any amount of it)
+		let text = if self.extra_members {
+			let lead = if self.nonce % 4 == 0 { " \n".repeat(70 + (self.nonce % 50) as usize) } else { "\r\n ".to_string() };
+			format!("{lead}{} \n", body)
+		} else {
+			body.to_string()
+		};
 		match self.hold_next.take() {
 			Some(g) => self.mc.push_text_held(text, &g),
 			None => self.mc.push_text(text),
@@ -317,7 +323,8 @@ impl World {
 		}
 		let _ = n;
 		self.ops[op].answered_before_poison = !self.poisoned;
-		self.mc.push_text(if self.extra_members { format!(" \t{}\r\n", Value::Array(arr)) } else { Value::Array(arr).to_string() });
+		let lead = if self.nonce % 4 == 1 { "\t ".repeat(70 + (self.nonce % 50) as usize) } else { " \t".to_string() };
+		self.mc.push_text(if self.extra_members { format!("{lead}{}\r\n", Value::Array(arr)) } else { Value::Array(arr).to_string() });
 	}
 
 	/// collect outcomes of finished ops (after settle)
